@@ -32,6 +32,8 @@ func main() {
 		cmdFn(os.Args[2:])
 	case "check":
 		cmdCheck(os.Args[2:])
+	case "sweep":
+		cmdSweep(os.Args[2:])
 	case "manifest":
 		cmdManifest()
 	case "baseline":
@@ -110,3 +112,18 @@ func indent(s, p string) string {
 	return p + strings.Join(ls, "\n"+p)
 }
 
+
+func cmdSweep(args []string) {
+	p, err := loadProg(nil)
+	if err != nil {
+		fmt.Fprintln(os.Stderr, err)
+		os.Exit(3)
+	}
+	for _, a := range args {
+		sr := runSweep(p, a)
+		fmt.Println("==", sr.Name, "--", sr.Explanation)
+		for _, s := range sr.Sites {
+			fmt.Println("  ", s)
+		}
+	}
+}
